@@ -146,6 +146,11 @@ func layout(r *rand.Rand, vs []*idVertex, style int) []*idVertex {
 		l = append(a, b...)
 	case 8: // components interleaved
 		sort.SliceStable(l, func(i, j int) bool { return l[i].depth < l[j].depth })
+	case 10:
+		rot(-1)
+	case 11:
+		rev()
+		rot(1)
 	default:
 		r.Shuffle(n, func(i, j int) { l[i], l[j] = l[j], l[i] })
 	}
@@ -210,7 +215,24 @@ func genIdentityGraph(r *rand.Rand, minSide, maxSide int) ([]string, []string) {
 			}
 			return res
 		}
-		return str(layout(r, s0, r.Intn(10))), str(layout(r, s1, r.Intn(10)))
+		a, b := layoutPair(r, 10)
+		return str(layout(r, s0, a)), str(layout(r, s1, b))
+	}
+}
+
+// layoutPair chooses the two layout styles.  Half of the time the pair is one that builds deep forests in
+// merges that link the vertices in list order: one list follows the chains from their roots (the last few
+// vertices moved to the front), the other list walks them backwards (the first few moved to the end).
+func layoutPair(r *rand.Rand, styles int) (int, int) {
+	switch r.Intn(6) {
+	case 0:
+		return 10, 11
+	case 1:
+		return 11, 10
+	case 2:
+		return [][2]int{{4, 3}, {3, 4}, {4, 11}, {10, 3}}[r.Intn(4)][0], [][2]int{{4, 3}, {3, 4}, {4, 11}, {10, 3}}[r.Intn(4)][1]
+	default:
+		return r.Intn(styles), r.Intn(styles)
 	}
 }
 
@@ -237,7 +259,8 @@ func genRenameChain(r *rand.Rand, k int) ([]string, []string) {
 		}
 		return res
 	}
-	return str(layout(r, s0, r.Intn(7))), str(layout(r, s1, r.Intn(7)))
+	a, b := layoutPair(r, 7)
+	return str(layout(r, s0, a)), str(layout(r, s1, b))
 }
 
 // small data around big identity lists (the cost of the oracles grows with entries x identities)
@@ -336,8 +359,9 @@ func scaleIdentityCases(c *Config) {
 			emit(c, "bd-"+cls, in)
 		}
 	}
+	side := func(i int) int { return []int{12, 12, 16, 12, 20, 12, 16, 12, 12, 40}[i%10] }
 	for i := c.Count(700, 20000); i > 0; i-- {
-		rd1, rd2 := genIdentityGraph(r, 8, []int{12, 20, 40}[i%3])
+		rd1, rd2 := genIdentityGraph(r, 8, side(i))
 		emitIds("devs", rd1, rd2)
 	}
 	for i := c.Count(300, 10000); i > 0; i-- {
@@ -345,7 +369,7 @@ func scaleIdentityCases(c *Config) {
 		emitIds([]string{"devs", "couples"}[i%2], rd1, rd2)
 	}
 	for i := c.Count(250, 8000); i > 0; i-- {
-		rd1, rd2 := genIdentityGraph(r, 8, []int{12, 20, 40}[i%3])
+		rd1, rd2 := genIdentityGraph(r, 8, side(i))
 		emitIds("couples", rd1, rd2)
 	}
 	for i := c.Count(150, 5000); i > 0; i-- {
@@ -541,11 +565,18 @@ func scaleLargeCases(c *Config) {
 			rot := axis + int(c.Seed%10) + 10
 			for i, n := range scaleSizesMid {
 				if (i+rot)%3 == 0 {
-					pairs = append(pairs, [2]int{n, 1 + other()%(2*n)}, [2]int{1 + other()%(2*n), n})
+					if i%2 == 0 {
+						pairs = append(pairs, [2]int{n, 1 + other()%(2*n)})
+					} else {
+						pairs = append(pairs, [2]int{1 + other()%(2*n), n})
+					}
 				}
 			}
 			// 1003 and 1029: above the thresholds 1000 and 1024, not multiples of 8; one more size rotates
-			pairs = append(pairs, [2]int{1003, 300}, [2]int{40, 1029}, [2]int{scaleSizesBig[rot%len(scaleSizesBig)], 1001 + rot%5})
+			pairs = append(pairs, [2]int{1003, 300}, [2]int{40, 1029})
+			if axis < 2 {
+				pairs = append(pairs, [2]int{scaleSizesBig[rot%len(scaleSizesBig)], 1001 + rot%5})
+			}
 		}
 		axis++
 		for _, p := range pairs {
